@@ -93,6 +93,7 @@ class TableInfo:
 class ParseContext:
     current_parent_object = None
     top_level = True
+    macro_stack: Tuple = ()  # the macros being expanded right now, outermost first
 
     def __init__(self):
         self.macros = {}
@@ -317,9 +318,15 @@ def include_macro(
 
     fields = []
     friends = []
-    parse_inclusions(macro, fields, friends, context, parent_macros + (name,))
-    fields.extend(parse_fields(parsed_macro.fields or {}, context))
-    friends.extend(parse_friends(parsed_macro.friends or [], context))
+    # templates inside this macro (friends, nested objects) must not include it again
+    outer_macro_stack = context.macro_stack
+    context.macro_stack = parent_macros + (name,)
+    try:
+        parse_inclusions(macro, fields, friends, context, parent_macros + (name,))
+        fields.extend(parse_fields(parsed_macro.fields or {}, context))
+        friends.extend(parse_friends(parsed_macro.friends or [], context))
+    finally:
+        context.macro_stack = outer_macro_stack
 
     return _dedupe_field_list(fields), friends
 
@@ -394,7 +401,7 @@ def parse_object_template(yaml_sobj: Dict, context: ParseContext) -> ObjectTempl
         friends: List
         sobj_def["fields"] = fields = []
         sobj_def["friends"] = friends = []
-        parse_inclusions(yaml_sobj, fields, friends, context)
+        parse_inclusions(yaml_sobj, fields, friends, context, context.macro_stack)
         fields.extend(parse_fields(parsed_template.fields or {}, context))
         friends.extend(parse_friends(parsed_template.friends or [], context))
         fields[:] = _dedupe_field_list(fields)
